@@ -96,6 +96,7 @@ def _stream_rules(ctx: CheckContext, p: Program, r: Resolver):
         raise AnalysisError("Stream class not found")
     ctx.guard(derived.check_derived, ctx, r, st, invariant_props=["CP", "t_min", "t_max", "t_min_star", "t_max_star", "htr"],
                           base_props=["t_supply", "t_target", "heat_flow", "dt_cont", "htc"])
+    ctx.guard(derived.check_stale_order, ctx, r, st)
     groups = ctx.guard(derived.check_shift_direction, ctx, r, st)
     if groups is not None:
         ctx.guard(derived.check_helper_guards, ctx, r, st, groups)
